@@ -338,7 +338,9 @@ class Parser(object):
         self.rule = rule
         self.scenario_container = rule
         self.statement = rule
-        self.feature.add_rule(self.statement)
+        if self.feature:
+            # -- HINT: No feature exists if parse_rule() is used.
+            self.feature.add_rule(self.statement)
         # -- RESET STATE:
         self.tags = []
 
@@ -804,7 +806,7 @@ class Parser(object):
         :return: List of parsed rule (as :class:`~behave.model:Rule` object).
         """
         self._parse_loop(text, initial_state=State.RULE, filename=filename)
-        rule = self.statement
+        rule = self.rule    # -- HINT: self.statement refers to the last scenario.
         return rule
 
 
